@@ -37,34 +37,35 @@ P = {}
 JWT_C = "libjwt/jwt.c"
 JWT_STUBS = LIBC + ["stubs/alloc.c"]
 
-def gate_chain(prop, replay_fn=None):
+def gate_chain(prop, replay_fn=None, name_prefix=None):
     """__check_hmac, __check_key_bits, jwt_sign, _verify_sha_hmac, jwt_verify_sig
     under the clauses of `prop` (C09: strength floor, C02: key family)."""
     r = lambda fn: ({"driver": "replay/r_C09.c", "replace_tu": [JWT_C], "args": ["fn=" + fn, "prop=" + prop]})
     c = "contract_%s_" % prop
+    np = name_prefix or prop
     tok = "jwt_t *jwt; size_t n; __CPROVER_assume(n < 0x10000000); char *tok = VS(n); unsigned hl; __CPROVER_assume(hl < n);"
     return [
-        U(prop + ".__check_hmac", "__check_hmac (libjwt/jwt.c)", JWT_C, "contracts/jwt_c.h",
+        U(np + ".__check_hmac", "__check_hmac (libjwt/jwt.c)", JWT_C, "contracts/jwt_c.h",
           "jwt_t *jwt; __check_hmac(jwt);", "__check_hmac/%s__check_hmac" % c, stubs=LIBC, defines=["VERIF_TU_JWT"],
           expect=[c + "__check_hmac\\.postcondition\\.5"], timeout=120, replay=r("hmac")),
-        U(prop + ".__check_key_bits", "__check_key_bits (libjwt/jwt.c)", JWT_C, "contracts/jwt_c.h",
+        U(np + ".__check_key_bits", "__check_key_bits (libjwt/jwt.c)", JWT_C, "contracts/jwt_c.h",
           "jwt_t *jwt; __check_key_bits(jwt);", "__check_key_bits/%s__check_key_bits" % c, stubs=LIBC, defines=["VERIF_TU_JWT"],
           expect=[c + "__check_key_bits\\.postcondition\\.5"], timeout=120, replay=r("keybits")),
-        U(prop + ".jwt_sign", "jwt_sign (libjwt/jwt.c)", JWT_C, "contracts/jwt_c.h",
+        U(np + ".jwt_sign", "jwt_sign (libjwt/jwt.c)", JWT_C, "contracts/jwt_c.h",
           "OPS_TAKE_ADDRESSES(%s); jwt_t *jwt; char **out; unsigned int *len; const char *str; unsigned int n; jwt_sign(jwt,out,len,str,n);" % prop,
           "jwt_sign/%sjwt_sign" % c,
           replace=["__check_hmac/%s__check_hmac" % c, "__check_key_bits/%s__check_key_bits" % c],
           stubs=LIBC, defines=["VERIF_TU_JWT"],
           expect=[c + "jwt_sign\\.postcondition\\.7", c + "ops_sign_sha_hmac\\.precondition", c + "ops_sign_sha_pem\\.precondition"],
           replay=r("sign")),
-        U(prop + "._verify_sha_hmac", "_verify_sha_hmac (libjwt/jwt.c)", JWT_C, "contracts/jwt_c.h",
+        U(np + "._verify_sha_hmac", "_verify_sha_hmac (libjwt/jwt.c)", JWT_C, "contracts/jwt_c.h",
           "OPS_TAKE_ADDRESSES(%s); %s _verify_sha_hmac(jwt, tok, hl, tok + hl + 1);" % (prop, tok),
           "_verify_sha_hmac/%s_verify_sha_hmac" % c,
           replace=["jwt_sign/%sjwt_sign" % c, "jwt_base64uri_encode/contract_shape_jwt_base64uri_encode",
                    "jwt_strcmp/contract_shape_jwt_strcmp"],
           stubs=JWT_STUBS, defines=["VERIF_TU_JWT"], pre=[VS],
           expect=[c + "_verify_sha_hmac\\.postcondition\\.3", c + "jwt_sign\\.precondition"], replay=r("sign")),
-        U(prop + ".jwt_verify_sig", "jwt_verify_sig (libjwt/jwt.c)", JWT_C, "contracts/jwt_c.h",
+        U(np + ".jwt_verify_sig", "jwt_verify_sig (libjwt/jwt.c)", JWT_C, "contracts/jwt_c.h",
           "OPS_TAKE_ADDRESSES(%s); %s jwt_verify_sig(jwt, tok, hl, tok + hl + 1);" % (prop, tok),
           "jwt_verify_sig/%sjwt_verify_sig" % c,
           replace=["_verify_sha_hmac/%s_verify_sha_hmac" % c, "__check_key_bits/%s__check_key_bits" % c,
@@ -89,6 +90,33 @@ def vcp(prop, replay):
 
 R_C02 = {"driver": "replay/r_C02.c", "replace_tu": [VERIFY_C]}
 R_C04 = {"driver": "replay/r_C04.c", "replace_tu": [VERIFY_C]}
+
+# =============================== C01 =======================================
+def c01_chain():
+    tok = "jwt_t *jwt; size_t n; __CPROVER_assume(n < 0x10000000); char *tok = VS(n); unsigned hl; __CPROVER_assume(hl < n);"
+    return [
+        U("C01.jwt_sign", "jwt_sign (libjwt/jwt.c)", JWT_C, "contracts/jwt_c.h",
+          "OPS_TAKE_ADDRESSES(nogate); jwt_t *jwt; char **out; unsigned int *len; const char *str; unsigned int n; jwt_sign(jwt,out,len,str,n);",
+          "jwt_sign/contract_C01_jwt_sign",
+          replace=["__check_hmac/contract_C09___check_hmac", "__check_key_bits/contract_C09___check_key_bits"],
+          stubs=LIBC, defines=["VERIF_TU_JWT"],
+          expect=["contract_C01_jwt_sign\\.postcondition\\.8", "contract_nogate_ops_sign_sha_hmac\\.precondition"]),
+        U("C01._verify_sha_hmac", "_verify_sha_hmac (libjwt/jwt.c)", JWT_C, "contracts/jwt_c.h",
+          "OPS_TAKE_ADDRESSES(nogate); %s _verify_sha_hmac(jwt, tok, hl, tok + hl + 1);" % tok,
+          "_verify_sha_hmac/contract_C01__verify_sha_hmac",
+          replace=["jwt_sign/contract_C01_jwt_sign", "jwt_base64uri_encode/contract_shape_jwt_base64uri_encode",
+                   "jwt_strcmp/contract_shape_jwt_strcmp"],
+          stubs=JWT_STUBS, defines=["VERIF_TU_JWT"], pre=[VS],
+          expect=["contract_C01__verify_sha_hmac\\.postcondition\\.6", "contract_C01_jwt_sign\\.precondition"]),
+        U("C01.jwt_verify_sig", "jwt_verify_sig (libjwt/jwt.c)", JWT_C, "contracts/jwt_c.h",
+          "OPS_TAKE_ADDRESSES(nogate); %s jwt_verify_sig(jwt, tok, hl, tok + hl + 1);" % tok,
+          "jwt_verify_sig/contract_C01_jwt_verify_sig",
+          replace=["_verify_sha_hmac/contract_C01__verify_sha_hmac", "__check_key_bits/contract_C09___check_key_bits",
+                   "jwt_base64uri_decode/contract_shape_jwt_base64uri_decode"],
+          stubs=JWT_STUBS, defines=["VERIF_TU_JWT"], pre=[VS],
+          expect=["contract_C01_jwt_verify_sig\\.postcondition\\.6", "contract_nogate_ops_verify_sha_pem\\.precondition"]),
+    ]
+P["C01"] = {"property": "C01", "level": "proof", "units": c01_chain() + gate_chain("all", name_prefix="C01.all")}
 
 # =============================== C02 =======================================
 def setkey_units(prop="C02"):
@@ -154,6 +182,37 @@ P["C04"] = {"property": "C04", "level": "proof", "units": [
       "jwt_checker_claim_get/contract_C04_jwt_checker_claim_get", stubs=LIBC + ["stubs/jansson.c", "stubs/alloc.c"],
       extra_sources=["libjwt/jwt-setget.c"], expect=["contract_C04_jwt_checker_claim_get\\.postcondition\\.1"]),
     vcp("C04", dict(R_C04, args=["fn=post"])),
+]}
+
+# ============================ parsing units =================================
+VERIFY_JSON_STUBS = LIBC + ["stubs/time.c", "stubs/jansson.c", "stubs/alloc.c"]
+def parse_units(prop, clauses_name):
+    us = []
+    us.append(U(prop + ".jwt_parse_head", "jwt_parse_head (libjwt/jwt-verify.c)", VERIFY_C, "contracts/jwt_verify_c.h",
+        "jwt_t *jwt; size_t n; __CPROVER_assume(n < 0x10000000); char *h = VS(n); jwt_parse_head(jwt, h);",
+        "jwt_parse_head/contract_%s_jwt_parse_head" % clauses_name,
+        replace=["jwt_base64uri_decode_to_json/contract_jwt_base64uri_decode_to_json", "jwt_str_alg/contract_C02_jwt_str_alg"],
+        stubs=VERIFY_JSON_STUBS, defines=["VERIF_TU_JWT_VERIFY"], pre=[VS], flags=[],
+        expect=["contract_%s_jwt_parse_head\\.postcondition\\.1" % clauses_name, "contract_C02_jwt_str_alg\\.precondition"],
+        replay={"driver": "replay/r_C14.c"} if prop == "C14" else None))
+    return us
+P["C14"] = {"property": "C14", "level": "proof", "units": parse_units("C14", "C14") + [
+    U("C14.jwt_parse_payload", "jwt_parse_payload (libjwt/jwt-verify.c)", VERIFY_C, "contracts/jwt_verify_c.h",
+      "jwt_t *jwt; size_t n; __CPROVER_assume(n < 0x10000000); char *h = VS(n); jwt_parse_payload(jwt, h);",
+      "jwt_parse_payload/contract_C14_jwt_parse_payload",
+      replace=["jwt_base64uri_decode_to_json/contract_jwt_base64uri_decode_to_json"],
+      stubs=VERIFY_JSON_STUBS, defines=["VERIF_TU_JWT_VERIFY"], pre=[VS], flags=[],
+      expect=["contract_C14_jwt_parse_payload\\.postcondition\\.1"]),
+    vcp("C14", R_C02),
+]}
+P["C02"]["units"] += parse_units("C02", "C02")
+P["C06"] = {"property": "C06", "level": "proof", "units": [
+    U("C06.jwt_base64uri_decode_to_json", "jwt_base64uri_decode_to_json (libjwt/jwt-verify.c)", VERIFY_C, "contracts/jwt_verify_c.h",
+      "size_t n; __CPROVER_assume(n < 0x10000000); char *h = VS(n); jwt_base64uri_decode_to_json(h);",
+      "jwt_base64uri_decode_to_json/contract_jwt_base64uri_decode_to_json",
+      replace=["jwt_base64uri_decode/contract_shape_jwt_base64uri_decode"],
+      stubs=VERIFY_JSON_STUBS, defines=["VERIF_TU_JWT_VERIFY"], pre=[VS],
+      expect=["contract_jwt_base64uri_decode_to_json\\.postcondition\\.1", "contract_shape_jwt_base64uri_decode\\.precondition"]),
 ]}
 
 # =============================== C09 =======================================
